@@ -579,6 +579,7 @@ struct tlog { volatile unsigned tid; volatile unsigned n; volatile unsigned ev[M
 static struct tlog *L;
 static __thread struct tlog *my;
 static int kill_th = -1, kill_at = -1, how = 9;
+static char *self_argv[6];
 NOI static void die(void)
 {
 	switch (how) {
@@ -586,7 +587,7 @@ NOI static void die(void)
 	case 1: *(volatile int *)0 = 1; break;
 	case 2: abort(); break;
 	case 3: _exit(3); break;
-	case 4: { char *a[] = { "/bin/true", 0 }; execv(a[0], a); } break;
+	case 4: execv(self_argv[0], self_argv); break;        /* the same traced program, in the same task */
 	case 5: exit(4); break;
 	}
 }
@@ -620,6 +621,13 @@ int main(int argc, char **argv)
 	if (fd < 0 || ftruncate(fd, sizeof(struct tlog) * (NTH + 1)) < 0) return 9;
 	L = mmap(0, sizeof(struct tlog) * (NTH + 1), PROT_READ | PROT_WRITE, MAP_SHARED, fd, 0);
 	kill_th = atoi(argv[2]); kill_at = atoi(argv[3]); how = atoi(argv[4]);
+	if (argc >= 9) {	/* second stage after execv: <log2> <th2> <at2> <how2> */
+		self_argv[0] = argv[0]; self_argv[1] = argv[5]; self_argv[2] = argv[6];
+		self_argv[3] = argv[7]; self_argv[4] = argv[8]; self_argv[5] = 0;
+	}
+	else {
+		self_argv[0] = "/bin/true"; self_argv[1] = 0;
+	}
 	attach(0);
 	for (i = 1; i <= NTH; i++) pthread_create(&th[i], 0, worker, (void *)i);
 	root(0);
@@ -645,7 +653,7 @@ def gen_program(rng, nth, big):
                     % (k, k, rep, calls, k))
     roots = ["f%d(%d);" % (rng.randrange(0, max(1, nf // 2)), rng.randrange(3, 7) if big else rng.randrange(2, 4))
              for _ in range(rng.randrange(1, 4))]
-    body.append("static void root(long i) { %s if (i & 1) f%d(2); }" % (" ".join(roots), rng.randrange(nf)))
+    body.append("NOI static void root(long i) { %s if (i & 1) f%d(2); }" % (" ".join(roots), rng.randrange(nf)))
     body.append(PROG_TAIL)
     return nf, "\n".join(body)
 
@@ -707,6 +715,9 @@ def e2e_run(uft, objdir, prog, work, idx, case):
     data, logf = os.path.join(d, "data"), os.path.join(d, "log")
     cmd = ["timeout", "-s", "KILL", "20", uft, "record", "--no-pager", "--no-event", "--libmcount-path=" + objdir,
            "-d", data] + case["opts"] + [prog["exe"], logf, str(case["th"]), str(case["at"]), str(HOWS[case["how"]])]
+    st2 = case.get("stage2")
+    if st2:
+        cmd += [logf + "2", str(st2["th"]), str(st2["at"]), str(HOWS[st2["how"]])]
     t0 = time.time()
     p = subprocess.run(cmd, capture_output=True, text=True, cwd=d)
     ob = {"rc": p.returncode, "wall": time.time() - t0, "stderr": p.stderr[-300:]}
@@ -718,8 +729,9 @@ def e2e_run(uft, objdir, prog, work, idx, case):
         return ob
     ob["files"] = sorted(os.listdir(data)) if os.path.isdir(data) else []
     ob["logs"] = read_log(logf, prog["nth"]) if os.path.exists(logf) else []
+    ob["logs2"] = read_log(logf + "2", prog["nth"]) if (st2 and os.path.exists(logf + "2")) else []
     ob["dat"] = {}
-    for tid, _ in ob["logs"]:
+    for tid, _ in ob["logs"] + ob["logs2"]:
         f = os.path.join(data, "%d.dat" % tid)
         ob["dat"][tid] = open(f, "rb").read() if (tid and os.path.exists(f)) else b""
     ob["analysis"] = {}
@@ -731,10 +743,13 @@ def e2e_run(uft, objdir, prog, work, idx, case):
     return ob
 
 
-def coq_ecase(ftab, log, dat, crash, nest):
-    return ("{| e_ftab := [%s]%%N; e_log := [%s]%%N; e_bytes := %s; e_crash := %s; e_nest := %s |}" % (
-        "; ".join("(%d, %d)" % t for t in ftab), "; ".join("(%d, %d)" % e for e in log),
-        coq_bytes(dat), coq.coq_bool(crash), coq.coq_bool(nest)))
+def coq_ecase(ftab, nt, maxd, log1, log2, dat, crash1, crash2, nest):
+    def evs(l):
+        return "[" + "; ".join("(%d, %d)" % e for e in l) + "]%N"
+    return ("{| e_ftab := [%s]%%N; e_nt := %s; e_maxd := %d; e_log1 := %s; e_log2 := %s; e_bytes := %s; "
+            "e_crash1 := %s; e_crash2 := %s; e_nest := %s |}" % (
+                "; ".join("(%d, %d)" % t for t in ftab), coq_bytes(nt), maxd, evs(log1), evs(log2),
+                coq_bytes(dat), coq.coq_bool(crash1), coq.coq_bool(crash2), coq.coq_bool(nest)))
 
 
 def run_e2e(ctx, objdir):
@@ -773,7 +788,27 @@ def run_e2e(ctx, objdir):
                 th, total = 0, len(pr["full"][0][1])
             at = rng.choice([0, 1, total - 1, total - 2, rng.randrange(total), rng.randrange(total)]) % max(total, 1)
             opts = rng.choice([[], [], ["--no-libcall"], ["-b", "4k"], ["-b", "4k", "--no-libcall"]])
-            case = {"prog": pr["id"], "how": how, "th": th, "at": at, "opts": list(opts)}
+            case = {"prog": pr["id"], "how": how, "th": th, "at": at, "opts": list(opts), "nt": [], "maxd": 1 << 20}
+            fl = rng.random()
+            if how in ("segv", "abort", "exit", "sigkill") and fl < 0.7:
+                # record-time filters: the innermost return-stack frame at the crash may be a filtered-out one
+                # (the -N function itself; abort()/kill() called through the PLT beyond the -D limit)
+                if fl < 0.4:
+                    k = pr["full"][th][1][at][1]              # the function that is logging when the process dies
+                    case["nt"] = [k]
+                    case["opts"] = [o for o in opts if o != "--no-libcall"] + ["-N", "f%d" % k]
+                else:
+                    case["maxd"] = rng.randrange(1, 4)
+                    case["opts"] = [o for o in opts if o != "--no-libcall"] + ["-D", str(case["maxd"])]
+            if how == "execv":
+                # the program exec()s itself (same task, second session); the second image runs to the end, is
+                # killed or crashes
+                h2 = rng.choice(["none", "segv", "sigkill", "abort", "none"])
+                case["th"] = 0
+                t0n = len(pr["full"][0][1])
+                case["at"] = rng.randrange(t0n) if t0n else 0
+                case["stage2"] = {"how": h2, "th": 0 if h2 != "none" else -1,
+                                  "at": rng.randrange(t0n) if (t0n and h2 != "none") else -1}
             if how == "finish":
                 k = pr["full"][th][1][at][1]
                 case.update({"how": "none", "finish": k, "th": -1, "at": -1, "opts": opts + ["-T", "f%d@finish" % k]})
@@ -826,13 +861,32 @@ def e2e_judge(ctx, progs, cases, obs):
                 viol("reader", "C04 violated: `uftrace %s` rejects the directory left after the tracee %s (rc=%d): %s"
                      % (cmdn, how, rc, err), rj)
         nrec = 0
+        st2 = case.get("stage2")
+        per_tid = {}
         for ti, (tid, log) in enumerate(ob["logs"]):
-            ref = pr["full"][ti][1] if how in ("finish",) else log
-            crash = how in ("segv", "abort") and ti == case["th"]
+            if tid:
+                per_tid.setdefault(tid, {"l1": [], "l2": [], "ti": ti, "c1": False, "c2": False})
+                per_tid[tid]["l1"] = pr["full"][ti][1] if how == "finish" else log
+                per_tid[tid]["c1"] = how in ("segv", "abort") and ti == case["th"]
+        for ti, (tid, log) in enumerate(ob.get("logs2", [])):
+            if tid:
+                per_tid.setdefault(tid, {"l1": [], "l2": [], "ti": ti, "c1": False, "c2": False})
+                per_tid[tid]["l2"] = log
+                per_tid[tid]["c2"] = st2["how"] in ("segv", "abort") and ti == st2["th"]
+        for tid, pt in sorted(per_tid.items()):
             dat = ob["dat"].get(tid, b"")
             nrec += len(dat) // 16
-            ecases.append(coq_ecase(pr["ftab"], ref, dat, crash, how != "execv"))
-            owner.append((ci, ti, tid))
+            ecases.append(coq_ecase(pr["ftab"], case.get("nt", []), case.get("maxd", 1 << 20), pt["l1"], pt["l2"], dat,
+                                    pt["c1"], pt["c2"], how != "execv"))
+            owner.append((ci, pt["ti"], tid))
+        if st2:
+            tags.append("e2e:exec-self,second-image-" + st2["how"])
+            if any(pt["l1"] and pt["l2"] for pt in per_tid.values()):
+                tags.append("e2e:two-sessions-in-one-tid")
+        if case.get("nt"):
+            tags.append("e2e:dies-inside-N-function")
+        if case.get("maxd", 1 << 20) < 100:
+            tags.append("e2e:depth-limit")
         if nrec > 254:
             tags.append("e2e:buffer-switched")
         if ob.get("shm_left"):
@@ -853,7 +907,9 @@ def e2e_judge(ctx, progs, cases, obs):
                       "forming a prefix of what the thread executed%s" % (
                           tid, ti, how, " / misses open calls of the crashing thread" if how in ("segv", "abort") else ""),
                       {"line": "e2e", "case": case, "program": progs[case["prog"]]["src"], "thread": ti,
-                       "log": ob["logs"][ti][1][-40:], "dat_tail_hex": ob["dat"][tid][-160:].hex()}, True)
+                       "log": (ob["logs"][ti][1] if ti < len(ob["logs"]) else [])[-40:],
+                       "log_second_image": (ob["logs2"][ti][1] if ti < len(ob.get("logs2", [])) else [])[-40:],
+                       "dat_tail_hex": ob["dat"][tid][-160:].hex()}, True)
 
 
 FORK_FAIL_PROG = r"""
